@@ -358,6 +358,28 @@ class _Simplify(ast.NodeTransformer):
             self.changed = True
         return n
 
+    def visit_Subscript(self, n):
+        self.generic_visit(n)
+        # N9: (np.array)([f(x) for x in S])[e]  ->  f(S[e])   (single generator, no filter, pure, scalar index)
+        if not isinstance(n.ctx, ast.Load) or isinstance(n.slice, (ast.Slice, ast.Tuple)):
+            return n
+        v = n.value
+        if isinstance(v, ast.Call) and dotted(v.func) in ('np.array', 'numpy.array', 'np.asarray', 'list', 'tuple') and len(v.args) == 1 \
+                and not v.keywords:
+            v = v.args[0]
+        if isinstance(v, (ast.ListComp, ast.GeneratorExp)) and v is not n.value or isinstance(v, ast.ListComp):
+            if len(v.generators) == 1 and not v.generators[0].ifs and isinstance(v.generators[0].target, ast.Name) \
+                    and is_pure(v.elt) and is_pure(v.generators[0].iter) and is_pure(n.slice):
+                x = v.generators[0].target.id
+                inner_bound = {m.id for m in ast.walk(v.elt) if isinstance(m, ast.Name) and isinstance(m.ctx, ast.Store)}
+                if x not in inner_bound and not (free_names(n.slice) & inner_bound):
+                    elem = ast.Subscript(value=v.generators[0].iter, slice=n.slice, ctx=ast.Load())
+                    ast.copy_location(elem, n)
+                    new = _Subst(x, elem).visit(clone(v.elt))
+                    self.changed = True
+                    return new
+        return n
+
     def visit_comprehension(self, g):
         self.generic_visit(g)
         r = _zipcount(g.iter, g.target)
@@ -629,7 +651,7 @@ def _inline_temps(fn):
                 continue
             if not is_pure(st.value) or t in free_names(st.value):
                 continue
-            if len(loads) > 1 and is_alloc(st.value):
+            if len(loads) > 1 and is_alloc(st.value) and not _only_read(fn, loads):
                 continue
             i = next((k for k, s in enumerate(block) if s is st), None)
             if i is None:
@@ -652,6 +674,16 @@ def _inline_temps(fn):
     return changed
 
 
+def _only_read(fn, loads):
+    """every load is the container of an element read ``t[...]`` (identity of the container cannot be observed)."""
+    ids = {id(n) for n in loads}
+    ok = set()
+    for n in ast.walk(fn):
+        if isinstance(n, ast.Subscript) and isinstance(n.ctx, ast.Load) and id(n.value) in ids:
+            ok.add(id(n.value))
+    return ok == ids
+
+
 def walk_local_stmt(st):
     if isinstance(st, _SCOPES):
         return
@@ -672,21 +704,267 @@ def _mutated(name, stmts):
     return False
 
 
-def normalize_function(fn, max_rounds=12):
-    """normalise one function definition in place (nested functions are normalised first)."""
+# ------------------------------------------------------------------ N8: helper inlining
+KEEP_HELPERS = {'_symmetricandescaperates', '_asdict'}   # private methods that are anchors of properties: never inlined
+_inline_counter = [0]
+
+
+def _strip_doc(body):
+    if body and isinstance(body[0], ast.Expr) and isinstance(body[0].value, ast.Constant) and isinstance(body[0].value.value, str):
+        return body[1:]
+    return body
+
+
+def _helper_kind(fn):
+    for d in fn.decorator_list:
+        n = dotted(d)
+        if n == 'staticmethod': return 'static'
+        if n == 'classmethod': return 'class'
+        return None if n else None
+    return 'plain'
+
+
+def _inlinable(fn):
+    """straight-line helper: simple parameters, a single trailing return (or none), no generators / nested scopes."""
+    a = fn.args
+    if a.vararg or a.kwarg or a.kwonlyargs or a.posonlyargs:
+        return False
+    if any(not isinstance(d, ast.Constant) for d in a.defaults):
+        return False
+    body = _strip_doc(fn.body)
+    if not body:
+        return False
     for n in ast.walk(fn):
-        if n is not fn and isinstance(n, (ast.FunctionDef, ast.AsyncFunctionDef)) and not getattr(n, '_normalized', False):
-            pass
+        if isinstance(n, (ast.Yield, ast.YieldFrom, ast.Await, ast.Global, ast.Nonlocal, ast.Lambda)) or \
+                (n is not fn and isinstance(n, (ast.FunctionDef, ast.AsyncFunctionDef, ast.ClassDef))):
+            return False
+        if isinstance(n, ast.Call) and dotted(n.func) in (fn.name, 'self.' + fn.name, 'cls.' + fn.name):
+            return False
+    rets = [n for n in ast.walk(fn) if isinstance(n, ast.Return)]
+    if len(rets) > 1 or (rets and rets[0] is not body[-1]):
+        return False
+    return True
+
+
+class _Rename(ast.NodeTransformer):
+    def __init__(self, mapping):
+        self.mapping = mapping
+
+    def visit_Name(self, n):
+        if n.id in self.mapping:
+            m = self.mapping[n.id]
+            if isinstance(m, str):
+                n.id = m
+                return n
+            if isinstance(n.ctx, ast.Load):
+                return clone(m)
+        return n
+
+
+def _bind_call(helper, call, kind, receiver):
+    """{param: argument expression} for a call, or None when the call shape is not understood."""
+    names = [a.arg for a in helper.args.args]
+    bound = {}
+    if kind == 'plain' and receiver is not None:
+        if not names:
+            return None
+        bound[names[0]] = receiver
+        names = names[1:]
+    elif kind == 'class':
+        if not names:
+            return None
+        bound[names[0]] = receiver if receiver is not None else ast.Name(id='cls', ctx=ast.Load())
+        names = names[1:]
+    if any(isinstance(x, ast.Starred) for x in call.args) or any(k.arg is None for k in call.keywords):
+        return None
+    if len(call.args) > len(names):
+        return None
+    for n, x in zip(names, call.args):
+        bound[n] = x
+    for k in call.keywords:
+        if k.arg not in names or k.arg in bound:
+            return None
+        bound[k.arg] = k.value
+    defaults = helper.args.defaults
+    allnames = [a.arg for a in helper.args.args]
+    for n, d in zip(allnames[len(allnames) - len(defaults):], defaults):
+        bound.setdefault(n, d)
+    if set(bound) != set(allnames):
+        return None
+    return bound
+
+
+def _expand_call(helper, call, kind, receiver, targets, at):
+    """statements replacing ``targets = helper(...)`` (targets None: expression statement)."""
+    bound = _bind_call(helper, call, kind, receiver)
+    if bound is None:
+        return None
+    _inline_counter[0] += 1
+    k = _inline_counter[0]
+    locs = set()
+    for n in ast.walk(helper):
+        if isinstance(n, ast.Name) and isinstance(n.ctx, (ast.Store, ast.Del)):
+            locs.add(n.id)
+    locs |= set(bound)
+    mapping = {}
+    pre = []
+    for pname in [a.arg for a in helper.args.args]:
+        arg = bound[pname]
+        if isinstance(arg, (ast.Name, ast.Constant)) or (isinstance(arg, ast.Attribute) and is_pure(arg)):
+            stored = any(isinstance(n, ast.Name) and n.id == pname and isinstance(n.ctx, (ast.Store, ast.Del)) for n in ast.walk(helper)) or \
+                any(isinstance(n, ast.AugAssign) and isinstance(n.target, ast.Name) and n.target.id == pname for n in ast.walk(helper))
+            if not stored:
+                mapping[pname] = arg
+                continue
+        new = '%s__%d' % (pname, k)
+        mapping[pname] = new
+        a = ast.Assign(targets=[ast.Name(id=new, ctx=ast.Store())], value=clone(arg), type_comment=None)
+        pre.append(ast.copy_location(a, at))
+    for l in locs:
+        mapping.setdefault(l, '%s__%d' % (l, k))
+    body = [_Rename(mapping).visit(clone(st)) for st in _strip_doc(helper.body)]
+    out = pre
+    ret = None
+    if body and isinstance(body[-1], ast.Return):
+        ret = body[-1].value
+        body = body[:-1]
+    out += body
+    if targets is not None:
+        val = ret if ret is not None else ast.Constant(value=None)
+        a = ast.Assign(targets=targets, value=val, type_comment=None)
+        out.append(ast.copy_location(a, at))
+    elif ret is not None and not is_pure(ret):
+        out.append(ast.copy_location(ast.Expr(value=ret), at))
+    for st in out:
+        for n in ast.walk(st):
+            if not hasattr(n, 'lineno') and isinstance(n, (ast.stmt, ast.expr)):
+                ast.copy_location(n, at)
+    return out
+
+
+def _resolve_helper(call, local_defs, class_helpers, module_helpers):
+    """(helper def, kind, receiver expr) for a call of an inlinable helper, else None."""
+    f = call.func
+    if isinstance(f, ast.Name):
+        if f.id in local_defs:
+            return local_defs[f.id], 'local', None
+        if f.id in module_helpers:
+            return module_helpers[f.id], 'local', None
+        return None
+    if isinstance(f, ast.Attribute) and isinstance(f.value, ast.Name) and f.attr in class_helpers:
+        h, kind, clsname = class_helpers[f.attr]
+        if f.value.id in ('self', 'cls') or f.value.id == clsname:
+            if kind == 'static':
+                return h, 'static', None
+            if kind == 'class':
+                return h, 'class', (f.value if f.value.id == 'cls' else ast.Attribute(value=f.value, attr='__class__', ctx=ast.Load())
+                                    if f.value.id == 'self' else f.value)
+            if f.value.id == 'self':
+                return h, 'plain', f.value
+    return None
+
+
+class _ExprInline(ast.NodeTransformer):
+    """a call of a helper whose body is a single ``return expr`` is replaced by that expression (all arguments pure)."""
+
+    def __init__(self, local_defs, class_helpers, module_helpers):
+        self.ctx = (local_defs, class_helpers, module_helpers)
+        self.changed = False
+
+    def visit_FunctionDef(self, n):
+        return n
+    visit_AsyncFunctionDef = visit_ClassDef = visit_FunctionDef
+
+    def visit_Call(self, n):
+        self.generic_visit(n)
+        r = _resolve_helper(n, *self.ctx)
+        if r is None:
+            return n
+        h, kind, recv = r
+        body = _strip_doc(h.body)
+        if len(body) != 1 or not isinstance(body[0], ast.Return) or body[0].value is None:
+            return n
+        bound = _bind_call(h, n, kind, recv)
+        if bound is None or not all(is_pure(v) for v in bound.values()):
+            return n
+        # no capture: comprehension variables of the helper body must not occur in the arguments
+        inner = {m.id for m in ast.walk(body[0].value) if isinstance(m, ast.Name) and isinstance(m.ctx, ast.Store)}
+        if any(inner & free_names(v) for v in bound.values()):
+            return n
+        new = _Rename(dict(bound)).visit(clone(body[0].value))
+        for m in ast.walk(new):
+            ast.copy_location(m, n)
+        self.changed = True
+        return new
+
+
+def _inline_helpers(fn, class_helpers, module_helpers):
+    changed = False
+    local_defs = {}
+    for block in all_blocks(fn):
+        for st in block:
+            if isinstance(st, ast.FunctionDef) and _inlinable(st):
+                local_defs[st.name] = st
+    # a local name that is re-bound elsewhere is not a stable helper
+    for n in walk_local(fn):
+        if isinstance(n, ast.Name) and isinstance(n.ctx, ast.Store) and n.id in local_defs:
+            local_defs.pop(n.id)
+    ch = {k: v for k, v in class_helpers.items() if v[0] is not fn}
+    mh = {k: v for k, v in module_helpers.items() if v is not fn}
+    for block in all_blocks(fn):
+        i = 0
+        while i < len(block):
+            st = block[i]
+            call, targets = None, None
+            if isinstance(st, ast.Assign) and isinstance(st.value, ast.Call):
+                call, targets = st.value, st.targets
+            elif isinstance(st, ast.Expr) and isinstance(st.value, ast.Call):
+                call = st.value
+            if call is not None:
+                r = _resolve_helper(call, local_defs, ch, mh)
+                if r is not None:
+                    h, kind, recv = r
+                    body = _strip_doc(h.body)
+                    single = len(body) == 1 and isinstance(body[0], ast.Return)
+                    if not single:
+                        new = _expand_call(h, call, kind, recv, targets, st)
+                        if new is not None:
+                            block[i:i + 1] = new
+                            changed = True
+                            i += len(new)
+                            continue
+            i += 1
+    ei = _ExprInline(local_defs, ch, mh)
+    for block in all_blocks(fn)[:1]:
+        for k, st in enumerate(block):
+            if not isinstance(st, _SCOPES):
+                block[k] = ei.visit(st)
+    changed |= ei.changed
+    # drop local helpers that are no longer referenced
+    for block in all_blocks(fn):
+        for st in list(block):
+            if isinstance(st, ast.FunctionDef) and st.name in local_defs:
+                used = any(isinstance(n, ast.Name) and n.id == st.name and isinstance(n.ctx, ast.Load) for n in ast.walk(fn))
+                if not used and len(block) > 1:
+                    block.remove(st)
+                    changed = True
+    return changed
+
+
+def normalize_function(fn, max_rounds=40, class_helpers=None, module_helpers=None):
+    """normalise one function definition in place (nested functions are normalised first)."""
+    class_helpers = class_helpers or {}
+    module_helpers = module_helpers or {}
     for block in all_blocks(fn):
         for st in block:
             if isinstance(st, (ast.FunctionDef, ast.AsyncFunctionDef)):
-                normalize_function(st, max_rounds)
+                normalize_function(st, max_rounds, class_helpers, module_helpers)
             elif isinstance(st, ast.ClassDef):
                 for s2 in st.body:
                     if isinstance(s2, (ast.FunctionDef, ast.AsyncFunctionDef)):
                         normalize_function(s2, max_rounds)
     for _ in range(max_rounds):
-        ch = False
+        ch = _inline_helpers(fn, class_helpers, module_helpers)
         for block in all_blocks(fn):
             ch |= _split_tuple_assign(block)
         simp = _Simplify()
@@ -704,15 +982,33 @@ def normalize_function(fn, max_rounds=12):
     return fn
 
 
+def _private(name):
+    return name.startswith('_') and not name.startswith('__') and name not in KEEP_HELPERS
+
+
 def normalize_module(tree):
     """returns a normalised deep copy of a module tree."""
     new = clone(tree)
+    module_helpers = {st.name: st for st in new.body if isinstance(st, ast.FunctionDef) and _private(st.name) and _inlinable(st)}
+    # helpers first (so that what gets inlined is itself in normal form)
     for st in new.body:
-        if isinstance(st, (ast.FunctionDef, ast.AsyncFunctionDef)):
-            normalize_function(st)
+        if isinstance(st, ast.FunctionDef) and st.name in module_helpers:
+            normalize_function(st, module_helpers={k: v for k, v in module_helpers.items() if k != st.name})
+    for st in new.body:
+        if isinstance(st, (ast.FunctionDef, ast.AsyncFunctionDef)) and st.name not in module_helpers:
+            normalize_function(st, module_helpers=module_helpers)
         elif isinstance(st, ast.ClassDef):
+            helpers = {}
             for s2 in st.body:
-                if isinstance(s2, (ast.FunctionDef, ast.AsyncFunctionDef)):
-                    normalize_function(s2)
+                if isinstance(s2, ast.FunctionDef) and _private(s2.name) and _inlinable(s2):
+                    kind = _helper_kind(s2)
+                    if kind is not None:
+                        helpers[s2.name] = (s2, kind, st.name)
+            for s2 in st.body:
+                if isinstance(s2, ast.FunctionDef) and s2.name in helpers:
+                    normalize_function(s2, class_helpers={k: v for k, v in helpers.items() if k != s2.name}, module_helpers=module_helpers)
+            for s2 in st.body:
+                if isinstance(s2, (ast.FunctionDef, ast.AsyncFunctionDef)) and s2.name not in helpers:
+                    normalize_function(s2, class_helpers=helpers, module_helpers=module_helpers)
     ast.fix_missing_locations(new)
     return new
